@@ -798,16 +798,17 @@ func (vc *VC) loopEnv(li *LoopInfo, override map[*ssa.Phi]Term, heap Heap) *Spec
 	base := env.resolve
 	env.resolve = func(name string) (Term, bool) {
 		if name == "_k" {
-			for _, ins := range hb.Instrs {
-				if ph, ok := ins.(*ssa.Phi); ok && ph.Comment == "rangeindex" {
-					t := vc.vals[ph]
-					if override != nil {
-						if o, ok := override[ph]; ok {
-							t = o
-						}
+			if ph, off, _ := vc.countingPhi(li); ph != nil {
+				t := vc.vals[ph]
+				if override != nil {
+					if o, ok := override[ph]; ok {
+						t = o
 					}
-					return Term{S: fmt.Sprintf("(+ %s 1)", t.S), Sort: "Int", T: types.Typ[types.Int]}, true
 				}
+				if off == 0 {
+					return Term{S: t.S, Sort: "Int", T: types.Typ[types.Int]}, true
+				}
+				return Term{S: fmt.Sprintf("(+ %s %d)", t.S, off), Sort: "Int", T: types.Typ[types.Int]}, true
 			}
 			return Term{}, false
 		}
@@ -823,28 +824,120 @@ func (vc *VC) loopEnv(li *LoopInfo, override map[*ssa.Phi]Term, heap Heap) *Spec
 }
 
 func (vc *VC) autoRangeInvariant(li *LoopInfo, env *SpecEnv) string {
-	hb := vc.fn.Blocks[li.header]
-	// rangeindex phi: -1 <= phi < len
-	for _, ins := range hb.Instrs {
-		ph, ok := ins.(*ssa.Phi)
-		if !ok || ph.Comment != "rangeindex" {
-			continue
+	ph, _, bound := vc.countingPhi(li)
+	if ph == nil {
+		return "true"
+	}
+	k, _ := env.resolve("_k")
+	if bound != nil {
+		if c, isCall := bound.(*ssa.Call); isCall {
+			if b, isBi := c.Call.Value.(*ssa.Builtin); isBi && b.Name() == "len" {
+				a := vc.val(c.Call.Args[0])
+				switch a.Sort {
+				case "Slice":
+					return fmt.Sprintf("(and (<= 0 %s) (<= %s (s_len %s)))", k.S, k.S, a.S)
+				case "Str":
+					return fmt.Sprintf("(and (<= 0 %s) (<= %s (strlen %s)))", k.S, k.S, a.S)
+				}
+				return fmt.Sprintf("(<= 0 %s)", k.S)
+			}
 		}
-		k, _ := env.resolve("_k")
-		// find the length the loop compares against
+		if ln, ok := vc.vals[bound]; ok {
+			return fmt.Sprintf("(and (<= 0 %s) (<= %s %s))", k.S, k.S, ln.S)
+		}
+		if _, isC := bound.(*ssa.Const); isC {
+			return fmt.Sprintf("(and (<= 0 %s) (<= %s %s))", k.S, k.S, vc.val(bound).S)
+		}
+	}
+	return fmt.Sprintf("(<= 0 %s)", k.S)
+}
+
+// countingPhi finds the iteration counter of a loop: the rangeindex phi of a range loop (processed count = phi+1), or
+// the induction variable of a canonical index loop `for i := 0; i < E; i++` (processed count = i), where E is a
+// constant or the length of a slice / string value defined outside the loop (immutable, so 0 <= i <= E is an invariant
+// by construction). Returns the phi, the offset to add and the bound value (nil if unknown).
+func (vc *VC) countingPhi(li *LoopInfo) (*ssa.Phi, int, ssa.Value) {
+	hb := vc.fn.Blocks[li.header]
+	findBound := func(ph ssa.Value, plus1 bool) ssa.Value {
 		for _, ins2 := range hb.Instrs {
 			if bo, ok := ins2.(*ssa.BinOp); ok && bo.Op == token.LSS {
-				if ln, ok := vc.vals[bo.Y]; ok {
-					return fmt.Sprintf("(and (<= 0 %s) (<= %s %s))", k.S, k.S, ln.S)
+				return bo.Y
+			}
+		}
+		return nil
+	}
+	for _, ins := range hb.Instrs {
+		if ph, ok := ins.(*ssa.Phi); ok && ph.Comment == "rangeindex" {
+			return ph, 1, findBound(ph, true)
+		}
+	}
+	for _, ins := range hb.Instrs {
+		ph, ok := ins.(*ssa.Phi)
+		if !ok || len(ph.Edges) != 2 || len(hb.Preds) != 2 {
+			continue
+		}
+		if b, isB := ph.Type().Underlying().(*types.Basic); !isB || b.Kind() != types.Int {
+			continue
+		}
+		good := true
+		for i, p := range hb.Preds {
+			e := ph.Edges[i]
+			if vc.isBack[[2]int{p.Index, hb.Index}] {
+				bo, isBo := e.(*ssa.BinOp)
+				if !isBo || bo.Op != token.ADD || bo.X != ssa.Value(ph) {
+					good = false
+					break
 				}
-				if _, isC := bo.Y.(*ssa.Const); isC {
-					return fmt.Sprintf("(and (<= 0 %s) (<= %s %s))", k.S, k.S, vc.val(bo.Y).S)
+				c, isC := bo.Y.(*ssa.Const)
+				if !isC || c.Value == nil || c.Int64() != 1 {
+					good = false
+				}
+			} else {
+				c, isC := e.(*ssa.Const)
+				if !isC || c.Value == nil || c.Int64() != 0 {
+					good = false
 				}
 			}
 		}
-		return fmt.Sprintf("(<= 0 %s)", k.S)
+		if !good {
+			continue
+		}
+		// the header must test phi < E with E immutable: a constant, or len() of a value defined outside the loop
+		var bound ssa.Value
+		hasTest := false
+		for _, ins2 := range hb.Instrs {
+			bo, ok := ins2.(*ssa.BinOp)
+			if !ok || bo.Op != token.LSS || bo.X != ssa.Value(ph) {
+				continue
+			}
+			hasTest = true
+			switch y := bo.Y.(type) {
+			case *ssa.Const:
+				bound = y
+			case *ssa.Call:
+				if b, isBi := y.Call.Value.(*ssa.Builtin); isBi && b.Name() == "len" && len(y.Call.Args) == 1 {
+					arg := y.Call.Args[0]
+					if ai, isIns := arg.(ssa.Instruction); !isIns || !li.blocks[ai.Block().Index] {
+						if _, isMap := arg.Type().Underlying().(*types.Map); !isMap {
+							bound = y
+						}
+					}
+				}
+			default:
+				if yi, isIns := bo.Y.(ssa.Instruction); !isIns || !li.blocks[yi.Block().Index] {
+					bound = bo.Y
+				}
+			}
+		}
+		if !hasTest {
+			continue
+		}
+		// (when the bound is re-read from the heap in every iteration, e.g. len(p.Patches), only 0 <= i is assumed)
+		// the only other assignment to the counter is the increment (guaranteed by the phi shape); `continue` paths
+		// also pass through the increment in go/ssa's lowering of the post statement
+		return ph, 0, bound
 	}
-	return "true"
+	return nil, 0, nil
 }
 
 // checkInvariantsOnEdge: obligations that the invariants hold when entering the loop from pred p.
